@@ -13,9 +13,12 @@ package searcher
 
 //@ func newRange
 //@   mode bv
+//@   requires shift <= 63
 //@   modifies cov
 //@   effect forall v int64 :: cov[v] == (old(cov)[v] || (minBound <= v && v <= (maxBound | lowmask(shift))))
 //@   ensures result != nil
+//@   exit [range-starts-at-the-code-of-the-lower-bound] len(result.startTerm) == int64(nchars(shift)) + 1 && result.startTerm[0] == 0x20 + byte(shift) && (forall j uint :: 1 <= j && j <= nchars(shift) ==> result.startTerm[j] == digit(minBound, shift, j))
+//@   exit [range-ends-at-the-code-of-the-upper-bound-with-the-low-bits-set] len(result.endTerm) == int64(nchars(shift)) + 1 && result.endTerm[0] == 0x20 + byte(shift) && (forall j uint :: 1 <= j && j <= nchars(shift) ==> result.endTerm[j] == digit(maxBound | lowmask(shift), shift, j))
 
 //@ func splitInt64Range
 //@   mode bv
